@@ -128,9 +128,10 @@ fn main() {
         "c01" => {
             let cfg = StreamCfg { positions: args.budget(400_000, 4_000_000), max_plies: 400, max_half: 4095, max_full: 30000 };
             let (pe, pd) = if args.thorough { (40, 3) } else { (60, 2) };
-            stream::run_carried(&args, &cfg, &mut rep, &mut |p, rep, rng, carried| {
+            stream::run_carried2(&args, &cfg, &mut rep, &mut |p, rep, rng, carried, carried_uci| {
                 c01::check(p, rep, rng, pe, pd);
-                if let Some(bb) = carried { c01::check_carried(p, bb, rep); }
+                if let Some(bb) = carried { c01::check_carried(p, bb, rep, "carried-legal"); }
+                if let Some(bb) = carried_uci { c01::check_carried(p, bb, rep, "carried-by-make_uci-legal"); }
             });
         }
         "c02" => {
